@@ -1302,6 +1302,143 @@ Theorem deep_copy_cb_error env src p k i d h :
   deep_copy_cb env src p k i d h = (None, mk_call src p k i d :: h).
 Proof. intros NN E. destruct src; try congruence; cbn [deep_copy_cb]; rewrite E; reflexivity. Qed.
 
+(* ------------------------------------------------------------------ key storage *)
+(* The copy owns the storage of every member name: fresh strdups, none shared with the source
+   (whether the source owned or borrowed the name), none in caller memory.  Hence whatever the
+   caller does to its buffers after the copy was made cannot be seen through the copy. *)
+Definition mbuild_kv (kv : list byte * jv) (m : Z) : ((list byte * kstore) * mt) * Z :=
+  let (x', m1) := mbuild (snd kv) m in (((fst kv, KOwn m1), x'), m1 + 1).
+Definition entry_addrs (e : (list byte * kstore) * mt) : list Z := mem_addrs (snd e) ++ store_addr (snd (fst e)).
+
+Lemma NoDup_snoc {A} (l : list A) x : NoDup l -> ~ In x l -> NoDup (l ++ [x]).
+Proof.
+  intros H Hx. apply NoDup_app_intro; [assumption|constructor; [cbn; tauto|constructor]|].
+  intros y Hy [<-|[]]. contradiction.
+Qed.
+
+Lemma mbuild_alloc v : alloc_ok mbuild mem_addrs v.
+Proof.
+  induction v as [|x|x|x|x tx|x|la IH|la IH] using jv_ind'; intros n;
+    try (cbn; split; [lia|split; [intros i [<-|[]]; lia|constructor; [cbn; tauto|constructor]]]; fail).
+  - cbn. repeat split; try lia; try tauto. constructor.
+  - cbn [mbuild fst snd mem_addrs]. destruct (thread_alloc mbuild mem_addrs la IH (n + 1)) as (H1 & H2 & H3).
+    split; [lia|]. split.
+    + intros i [<-|Hi]; [lia|]. specialize (H2 _ Hi). lia.
+    + constructor; [|assumption]. intros Hi. specialize (H2 _ Hi). lia.
+  - cbn [mbuild fst snd mem_addrs]. fold mbuild_kv. fold entry_addrs.
+    assert (HF : Forall (alloc_ok mbuild_kv entry_addrs) la).
+    { eapply Forall_impl; [|exact IH]. intros [k v] Hv m. cbn in Hv. unfold mbuild_kv, entry_addrs. cbn [fst snd].
+      destruct (Hv m) as (A1 & A2 & A3). destruct (mbuild v m) as [x' m1]. cbn [fst snd store_addr] in *.
+      split; [lia|]. split.
+      - intros i Hi. apply in_app_iff in Hi as [Hi|[<-|[]]]; [specialize (A2 _ Hi)|]; lia.
+      - apply NoDup_snoc; [assumption|]. intros Hi. specialize (A2 _ Hi). lia. }
+    destruct (thread_alloc mbuild_kv entry_addrs la HF (n + 1)) as (H1 & H2 & H3).
+    split; [lia|]. split.
+    + intros i [<-|Hi]; [lia|]. specialize (H2 _ Hi). lia.
+    + constructor; [|assumption]. intros Hi. specialize (H2 _ Hi). lia.
+Qed.
+
+Lemma mbuild_erase v n : mt_erase (fst (mbuild v n)) = v.
+Proof.
+  unfold mt_erase. revert n.
+  induction v as [|x|x|x|x tx|x|la IH|la IH] using jv_ind'; intros n; try reflexivity.
+  - cbn [mbuild fst mt_nodes erase]. f_equal. rewrite map_map.
+    rewrite (thread_map mbuild (fun t => erase (mt_nodes t)) (fun x => x)); [apply map_id|].
+    intros x m Hx. rewrite Forall_forall in IH. apply IH. exact Hx.
+  - cbn [mbuild fst mt_nodes erase]. fold mbuild_kv. f_equal. rewrite map_map. cbn [fst snd].
+    rewrite (thread_map mbuild_kv (fun e => (fst (fst e), erase (mt_nodes (snd e)))) (fun kv => kv)); [apply map_id|].
+    intros [k v] m Hin. unfold mbuild_kv. cbn [fst snd]. rewrite Forall_forall in IH. specialize (IH _ Hin m). cbn in IH.
+    destruct (mbuild v m). cbn in *. congruence.
+Qed.
+
+Lemma thread_forall {A B C} (f : A -> Z -> B * Z) (g : B -> list C) (Q : C -> Prop) l :
+  (forall x n, In x l -> Forall Q (g (fst (f x n)))) ->
+  forall m, Forall Q (flat_map g (fst (thread f l m))).
+Proof.
+  induction l as [|x t IH]; intros H m; cbn; [constructor|].
+  pose proof (H x m (or_introl eq_refl)) as Hx. destruct (f x m) as [x' n1].
+  specialize (IH (fun y n Hy => H y n (or_intror Hy)) n1). destruct (thread f t n1) as [t' n2].
+  cbn in *. apply Forall_app. split; assumption.
+Qed.
+
+Definition is_own (s : kstore) : Prop := match s with KOwn _ => True | KBorrowed _ => False end.
+
+Lemma mbuild_own v n : Forall is_own (key_stores (fst (mbuild v n))).
+Proof.
+  revert n. induction v as [|x|x|x|x tx|x|la IH|la IH] using jv_ind'; intros n; try (cbn; constructor).
+  - cbn [mbuild fst key_stores]. apply thread_forall. intros x m Hx. rewrite Forall_forall in IH. apply IH. exact Hx.
+  - cbn [mbuild fst key_stores]. fold mbuild_kv. apply thread_forall. intros [k v] m Hin. unfold mbuild_kv. cbn [fst snd].
+    rewrite Forall_forall in IH. specialize (IH _ Hin m). cbn in IH. destruct (mbuild v m). cbn in *.
+    constructor; [exact I|exact IH].
+Qed.
+
+Lemma own_no_borrow l : Forall is_own l -> flat_map store_buf l = [].
+Proof. induction 1 as [|s t Hs _ IH]; [reflexivity|]. destruct s; [exact IH|destruct Hs]. Qed.
+
+Lemma key_store_in_mem t a : In (KOwn a) (key_stores t) -> In a (mem_addrs t).
+Proof.
+  induction t as [|i x|i l IH|i l IH] using mt_ind'; cbn; try tauto.
+  - intros H. right. apply in_flat_map in H as (c & Hc & H). apply in_flat_map. exists c. split; [assumption|].
+    rewrite Forall_forall in IH. apply (IH c Hc H).
+  - intros H. right. apply in_flat_map in H as (e & He & H). apply in_flat_map. exists e. split; [assumption|].
+    apply in_app_iff. destruct H as [H|H].
+    + right. rewrite H. cbn. auto.
+    + left. rewrite Forall_forall in IH. apply (IH e He H).
+Qed.
+
+Theorem mt_copy_erase t n : jv_wf (mt_erase t) -> mt_erase (fst (mt_copy t n)) = mt_erase t.
+Proof. intros W. unfold mt_copy. rewrite mbuild_erase. apply deep_copy_same. exact W. Qed.
+
+Theorem mt_copy_fresh t n : forall i, In i (mem_addrs (fst (mt_copy t n))) -> n <= i < snd (mt_copy t n).
+Proof. unfold mt_copy. apply (mbuild_alloc (deep_copy (mt_erase t)) n). Qed.
+
+Theorem mt_copy_tree_shaped t n : NoDup (mem_addrs (fst (mt_copy t n))).
+Proof. unfold mt_copy. apply (mbuild_alloc (deep_copy (mt_erase t)) n). Qed.
+
+(* no name of the copy lives in caller memory *)
+Theorem mt_copy_owns_keys t n : Forall is_own (key_stores (fst (mt_copy t n))) /\ borrowed (fst (mt_copy t n)) = [].
+Proof. unfold mt_copy, borrowed. split; [apply mbuild_own|apply own_no_borrow, mbuild_own]. Qed.
+
+(* nodes AND name storage: nothing the copy is made of is part of the source *)
+Theorem deep_copy_disjoint_keys t n :
+  (forall i, In i (mem_addrs t) -> i < n) ->
+  (forall i, In i (mem_addrs t) -> In i (mem_addrs (fst (mt_copy t n))) -> False) /\
+  (forall s, In s (key_stores t) -> In s (key_stores (fst (mt_copy t n))) -> False).
+Proof.
+  intros H. split.
+  - intros i H1 H2. specialize (H _ H1). apply mt_copy_fresh in H2. lia.
+  - intros s H1 H2. destruct (mt_copy_owns_keys t n) as [Ho _]. rewrite Forall_forall in Ho.
+    pose proof (Ho s H2) as Hs. destruct s as [a|b]; [|destruct Hs].
+    apply key_store_in_mem in H1, H2. specialize (H _ H1). apply mt_copy_fresh in H2. lia.
+Qed.
+
+Lemma borrowed_in t b : In b (borrowed t) <-> In (KBorrowed b) (key_stores t).
+Proof.
+  unfold borrowed. rewrite in_flat_map. split.
+  - intros ([a|b'] & Hs & Hb); cbn in Hb; [tauto|]. destruct Hb as [->|[]]. exact Hs.
+  - intros H. exists (KBorrowed b). split; [exact H|cbn; auto].
+Qed.
+
+Lemma kbuf_write_frame' b x t : ~ In (KBorrowed b) (key_stores t) -> kbuf_write b x t = t.
+Proof.
+  induction t as [|i y|i l IH|i l IH] using mt_ind'; cbn; intros H; try reflexivity.
+  - f_equal. apply map_id_in. intros c Hc. rewrite Forall_forall in IH. apply (IH c Hc).
+    intros Hi. apply H. apply in_flat_map. eauto.
+  - f_equal. apply map_id_in. intros [[k s] c] Hc. cbn [fst snd]. rewrite Forall_forall in IH.
+    f_equal.
+    + f_equal. destruct s as [a|b']; [reflexivity|]. destruct (b' =? b) eqn:E; [|reflexivity].
+      apply Z.eqb_eq in E. subst b'. exfalso. apply H. apply in_flat_map. exists (k, KBorrowed b, c). cbn. auto.
+    + apply (IH _ Hc). intros Hi. apply H. apply in_flat_map. exists (k, s, c). cbn. auto.
+Qed.
+
+Theorem kbuf_write_frame b x t : ~ In b (borrowed t) -> kbuf_write b x t = t.
+Proof. rewrite borrowed_in. apply kbuf_write_frame'. Qed.
+
+(* whatever the caller writes into (or however it recycles) any of its buffers after the copy
+   was made, the copy reads the same *)
+Theorem mt_copy_key_frame t n b x : kbuf_write b x (fst (mt_copy t n)) = fst (mt_copy t n).
+Proof. apply kbuf_write_frame. rewrite (proj2 (mt_copy_owns_keys t n)). cbn. tauto. Qed.
+
 (* ------------------------------------------------------------------ witnesses (non-vacuity) *)
 Definition ex_nan : Z := 9221120237041090560.          (* 0x7ff8000000000000 *)
 Definition ex_a : jv :=
@@ -1412,3 +1549,18 @@ Proof.
   - eexists. split; [vm_compute; reflexivity|reflexivity].
   - vm_compute. reflexivity.
 Qed.
+
+(* a source that borrows two of its three member names from caller buffers 0 and 1 *)
+Definition ex_msrc : mt :=
+  MObj 0 [(([97], KBorrowed 0), MLeaf 1 (LInt 1));
+          (([98], KBorrowed 1), MObj 2 [(([99], KOwn 3), MLeaf 4 (LStr [120]))]);
+          (([100], KOwn 5), MNull)].
+Example ex_keys :
+  let cpy := fst (mt_copy ex_msrc 10) in
+  mt_erase cpy = mt_erase ex_msrc /\
+  key_stores ex_msrc = [KBorrowed 0; KBorrowed 1; KOwn 3; KOwn 5] /\
+  key_stores cpy = [KOwn 12; KOwn 16; KOwn 15; KOwn 17] /\
+  borrowed ex_msrc = [0; 1] /\ borrowed cpy = [] /\
+  mt_erase (kbuf_write 0 [90] ex_msrc) <> mt_erase ex_msrc /\
+  kbuf_write 0 [90] cpy = cpy.
+Proof. vm_compute. repeat split. discriminate. Qed.
